@@ -597,7 +597,7 @@ pub fn gen_check(rng: &mut Rng, apps: &[AppSpec], path: Path, cup: bool, cohorts
             }
             let (doc, _) = gen_doc(rng, apps, Some(true), true);
             let etag = if cup {
-                rng.pick(&[EtagSpec::Absent, EtagSpec::FlipSig, EtagSpec::ForeignKey, EtagSpec::WrongKeyId, EtagSpec::OtherBody, EtagSpec::HashOnly, EtagSpec::Raw(b"W/\"zz\"".to_vec())]).clone()
+                rng.pick(&[EtagSpec::Absent, EtagSpec::FlipSig, EtagSpec::ForeignKey, EtagSpec::WrongKeyId, EtagSpec::OtherBody, EtagSpec::HashOnly, EtagSpec::OtherHeldKey, EtagSpec::Raw(b"W/\"zz\"".to_vec())]).clone()
             } else {
                 EtagSpec::Auto
             };
@@ -673,6 +673,15 @@ pub fn gen_check(rng: &mut Rng, apps: &[AppSpec], path: Path, cup: bool, cohorts
     if path == Path::FailForged && !cup {
         // without CUP a "forged" reply is just a valid one; keep the label honest
         label.push_str("-nocup");
+    }
+    // success is any 2xx status, not just 200 (201 Created, 202 Accepted, 203 from a proxy, 206, 226, 299)
+    if rng.chance(1, 10) {
+        if let Some(RespSpec::Reply(rep)) = attempts.last_mut() {
+            if rep.status == 200 {
+                rep.status = *rng.pick(&[201u16, 202, 203, 204, 206, 226, 299]);
+                label.push_str(&format!("+s{}", rep.status));
+            }
+        }
     }
     cs.attempts = attempts;
     if pre > 0 {
